@@ -368,6 +368,14 @@ func streamLex(o *Out, r *rand.Rand, n int, thorough bool) {
 		{"for { a }", "for { }"}, {"for i = 0; i < 1; i++ { a }", "for i = 0; i < 1; i++ { }"}, {"f = func(a) { return a }", "g = func(a) {}"}, {"if a { b } else if c { d } else { e }", "if a { } else if c { } else { }"},
 		{"x = 1\ny = 2\nif a { b }", "z = 3\nw = 4\nif c {}"}, {"go func() { a }()", "go func() { }()"}, {"defer func() { a }()", "defer func() {}()"},
 	}
+	// very long lines: a node whose token starts thousands of columns into its line keeps line and column (alone and shifted)
+	long := strings.Repeat("y", 5000)
+	manyElems := "l = [" + strings.Repeat("1, ", 2500) + "2]"
+	nested := "n = " + strings.Repeat("(", 2200) + "1" + strings.Repeat(")", 2200) + " + t"
+	fixedPairs = append(fixedPairs, [][2]string{
+		{"a = 1", "s = \"" + long + "\" + t"}, {"a = 1\nb = 2", manyElems + "\nz = l"}, {"a = 1", nested}, {"s = \"" + long + "\" + t", "u = 2\nv = \"" + long + "\" + w"},
+		{"a = 1\nb = 2\nc = 3", "f(" + strings.Repeat("x, ", 1400) + "y) + g(z)"}, {manyElems, manyElems},
+	}...)
 	if npairs > 0 {
 		npairs += len(fixedPairs)
 	}
